@@ -14,6 +14,8 @@ reset at a scheduler-chosen step.  Oracle: every outstanding call fails exactly 
 the loss reason, no timer survives, every registered callback of the connection and of
 every proxy the workload still references runs exactly once, nothing fires afterwards.
 """
+import functools
+
 from twisted.internet import defer, error as tierror
 from twisted.python.failure import Failure
 
@@ -44,7 +46,7 @@ PROBES = ['A-no-address', 'A-all-refused', 'A-second-address-used', 'A-closed-du
           'B-loss-with-pending-calls', 'B-loss-with-deadline', 'B-proxy-explicit',
           'B-proxy-introspected', 'B-proxy-by-name', 'B-two-proxies-same-object',
           'B-introspection-in-flight-at-loss', 'B-errback-issues-call', 'B-reset',
-          'B-client-disconnect', 'B-callback-cancelled', 'B-all-callbacks-cancelled-then-new-one', 'B-disconnect-callback-raises', 'B-call-cancelled-by-its-owner', 'B-proxy-dropped', 'B-second-connection',
+          'B-client-disconnect', 'B-callback-cancelled', 'B-all-callbacks-cancelled-then-new-one', 'B-disconnect-callback-raises', 'B-disconnect-callback-returns-a-deferred', 'B-call-cancelled-by-its-owner', 'B-proxy-dropped', 'B-second-connection',
           'B-call-answered-with-error', 'B-bound-method-callback', 'B-callback-registered-twice',
           'B-callback-issues-call']
 COMPONENTS = {
@@ -385,6 +387,15 @@ def part_b(ctx):
             if boom == 2:
                 sim.probe('B-disconnect-callback-raises')
                 raise SimCancelled('disconnect callback %s cancelled' % label)
+            if slow:
+                # clean-up "that takes a while": a Deferred nobody will ever fire
+                sim.probe('B-disconnect-callback-returns-a-deferred')
+                return defer.Deferred()
+        slow = ds.flag(0.08)
+        form = ds.weighted([7, 1.5])
+        if form == 1:
+            # the usual way to bind context: a callable that has no __name__
+            return functools.partial(cb)
         return cb
 
     def op_call():
